@@ -135,6 +135,101 @@ func detDigest(seed uint64) string {
 	return hex.EncodeToString(h.Sum(nil))
 }
 
+// Order independence across processes.  A cache that is filled by the first call that needs an entry
+// gives the same (possibly wrong) answer for the rest of the process, so repeating calls in one
+// process cannot see it; separate processes that handle the same inputs, with the same files on disk,
+// in DIFFERENT orders can: every input must give the same result in each of them.
+// The inputs: the seeded dumps of detInputs, and two checkouts of one module under dir (wt1, wt2: the
+// same go.mod, the same relative paths and lines) with one dump each.
+func detOrderInputs(dir string, seed uint64) (ins []string, opts *stack.Opts) {
+	for _, wt := range []string{"wt1", "wt2", "wt3"} {
+		ins = append(ins, fmt.Sprintf("goroutine 1 [running]:\nexample.com/lib/lib.Do(0x1)\n\t%s/%s/lib/lib.go:4 +0x1\nmain.main()\n\t%s/%s/main.go:4 +0x2\n\n", dir, wt, dir, wt))
+	}
+	ins = append(ins, detInputs(seed)...)
+	return ins, &stack.Opts{NameArguments: true, GuessPaths: true, AnalyzeSources: true, LocalGOROOT: "/nonexistent-goroot", LocalGOPATHs: []string{"/nonexistent-gopath"}}
+}
+
+func detOrderPrepare(dir string) {
+	for _, wt := range []string{"wt1", "wt2", "wt3"} {
+		os.MkdirAll(filepath.Join(dir, wt, "lib"), 0o755)
+		os.WriteFile(filepath.Join(dir, wt, "go.mod"), []byte("module example.com/lib\n\ngo 1.20\n"), 0o644)
+		os.WriteFile(filepath.Join(dir, wt, "lib", "lib.go"), []byte("package lib\n\nfunc Do(n int) {\n\tpanic(n)\n}\n"), 0o644)
+		os.WriteFile(filepath.Join(dir, wt, "main.go"), []byte("package main\n\nfunc main() {\n\tlib.Do(1)\n}\n"), 0o644)
+	}
+}
+
+func detOrderPerm(n, order int) []int {
+	idx := make([]int, n)
+	for i := range idx {
+		idx[i] = i
+	}
+	switch order % 4 {
+	case 1:
+		for i, j := 0, n-1; i < j; i, j = i+1, j-1 {
+			idx[i], idx[j] = idx[j], idx[i]
+		}
+	case 2:
+		idx = append(idx[n/2:], idx[:n/2]...)
+	case 3:
+		r := NewRng(uint64(order) + 77)
+		p := r.Perm(n)
+		copy(idx, p)
+	}
+	return idx
+}
+
+// detOrderRun: the child process
+func detOrderRun(dir string, order int, seed uint64) {
+	ins, opts := detOrderInputs(dir, seed)
+	for _, i := range detOrderPerm(len(ins), order) {
+		out := renderEverything(ins[i], opts)
+		sum := sha256.Sum256([]byte(out))
+		fmt.Printf("%d %s\n", i, hex.EncodeToString(sum[:8]))
+	}
+}
+
+func runOrderIndependence(res *Result) {
+	self, err := os.Executable()
+	if err != nil {
+		return
+	}
+	dir, err := os.MkdirTemp("", "verif-c06-order-")
+	if err != nil {
+		return
+	}
+	defer os.RemoveAll(dir)
+	detOrderPrepare(dir)
+	ins, _ := detOrderInputs(dir, res.Seed+1)
+	byInput := map[string]map[string][]int{} // input index -> digest -> orders
+	orders := countN(res.Tier, 4, 12)
+	for o := 0; o < orders; o++ {
+		out, err := exec.Command(self, "-detorder", fmt.Sprint(o), "-detdir", dir, "-det", fmt.Sprint(res.Seed+1)).Output()
+		if err != nil {
+			res.Extra["order-independence"] = "cannot re-exec: " + err.Error()
+			return
+		}
+		res.Count("order-processes")
+		for _, l := range strings.Split(strings.TrimSpace(string(out)), "\n") {
+			f := strings.Fields(l)
+			if len(f) != 2 {
+				continue
+			}
+			if byInput[f[0]] == nil {
+				byInput[f[0]] = map[string][]int{}
+			}
+			byInput[f[0]][f[1]] = append(byInput[f[0]][f[1]], o)
+		}
+	}
+	for i := range ins {
+		k := fmt.Sprint(i)
+		res.Eval("order|"+k, true)
+		if len(byInput[k]) > 1 {
+			res.Violation(Finding{Stream: "order-independence", What: fmt.Sprintf("input %d (snapshot, buckets, console text and HTML) came out differently in separate processes that handled the same %d inputs, with the same files on disk, in different orders: digest -> orders %v; the input: %s", i, len(ins), byInput[k], clip(strings.ReplaceAll(ins[i], dir, "$DIR"))), Op: map[string]interface{}{"input_index": i, "orders": byInput[k], "layout": "$DIR/wt1, $DIR/wt2, $DIR/wt3: three checkouts of module example.com/lib (go.mod, main.go, lib/lib.go)", "input": strings.ReplaceAll(ins[i], dir, "$DIR")}})
+			return
+		}
+	}
+}
+
 func runC06(prop string, res *Result, pool *DrvPool, r *Rng) {
 	res.Rule = "inputs biased to buckets that tie under the ordering, recurring pointers, '?' arguments next to differing values, race reports, and an on-disk source tree with 80 goroutines for the path-guessing/augmentation path; each input is processed repeatedly in one process (snapshot, buckets at 4 levels, console text in 3 path formats, HTML with the time masked) and the whole set in several separate processes (digest comparison); plus the aggregation determinism stream shared with C04; non-trivial = the input yields >= 2 buckets; distinct by hash of the input"
 	n := countN(res.Tier, 60, 1500)
@@ -261,6 +356,7 @@ func runC06(prop string, res *Result, pool *DrvPool, r *Rng) {
 			break
 		}
 	}
+	runOrderIndependence(res)
 	aggCasesDiv = 4
 	runAgg("C06", res, pool, r.Fork())
 }
